@@ -890,10 +890,13 @@ def _split_ifexp(e, conds, nodes):
     """[(conds, nodes, expr-without-top-level-IfExp)]"""
     if isinstance(e, ast.IfExp):
         t = canon(e.test)
-        out = []
-        out += _split_ifexp(e.body, conds + [ctext(t)], nodes + [t])
         nt = negate(t)
-        out += _split_ifexp(e.orelse, conds + [ctext(nt)], nodes + [nt])
+        tt, ntt = ctext(t), ctext(nt)
+        out = []
+        if ntt not in conds:
+            out += _split_ifexp(e.body, conds + [tt], nodes + [t])
+        if tt not in conds:
+            out += _split_ifexp(e.orelse, conds + [ntt], nodes + [nt])
         return out
     return [(conds, nodes, e)]
 
@@ -944,8 +947,12 @@ def branch_values(stmts, sink, env0=None, max_paths=2000, follow_loops=False, op
             if isinstance(st, ast.If):
                 t = canon(expand(st.test, env))
                 nt = negate(t)
-                run(list(st.body) + rest, env, conds + [ctext(t)], nodes + [t])
-                run(list(st.orelse) + rest, env, conds + [ctext(nt)], nodes + [nt])
+                tt, ntt = ctext(t), ctext(nt)
+                # a path that assumes both a condition and its negation is infeasible
+                if ntt not in conds:
+                    run(list(st.body) + rest, env, conds + [tt], nodes + [t])
+                if tt not in conds:
+                    run(list(st.orelse) + rest, env, conds + [ntt], nodes + [nt])
                 return
             if isinstance(st, (ast.Return, ast.Raise, ast.Continue, ast.Break)):
                 return
